@@ -25,9 +25,26 @@
 (***************************************************************************)
 EXTENDS Integers
 
-VARIABLES ax, bx, cx, fa, fb, fc,    \* the triple and its values
-          pc,                         \* "a", "b", "c": initial evaluations; "loop"; "g1": Golden pending; "s2": Extra pending; "done"
-          tu, tfu                     \* the outer point waiting for Extra
+\* (the @type comments are for Apalache, spec/apalache/Bracket_Ind.tla; TLC and TLAPS ignore them)
+VARIABLES
+  \* @type: Int;
+  ax,
+  \* @type: Int;
+  bx,
+  \* @type: Int;
+  cx,                                 \* the triple ...
+  \* @type: Int;
+  fa,
+  \* @type: Int;
+  fb,
+  \* @type: Int;
+  fc,                                 \* ... and its values
+  \* @type: Str;
+  pc,                                 \* "a", "b", "c": initial evaluations; "loop"; "g1": Golden pending; "s2": Extra pending; "done"
+  \* @type: Int;
+  tu,
+  \* @type: Int;
+  tfu                                 \* the outer point waiting for Extra
 bvars == <<ax, bx, cx, fa, fb, fc, pc, tu, tfu>>
 
 BInit == ax = 0 /\ bx = 0 /\ cx = 0 /\ fa = 0 /\ fb = 0 /\ fc = 0 /\ pc = "a" /\ tu = 0 /\ tfu = 0
